@@ -105,7 +105,8 @@ fn copy_into_writer(reader: &mut Source, writer: &mut PagedWriter) -> (r: std::r
 //@enditem
 
 impl BlobSectionHeader {
-    const SIZE: u64 = 16;
+//@item src/blob.rs const SIZE owner=BlobSectionHeader
+//@enditem
 //@fn src/blob.rs BlobSectionHeader from_array serves=C06,C08 ret=r
 //@rw u64::from_le_bytes\(\s*buffer\[(\d+)\.\.(\d+)\]\.try_into\(\)\.internal_err\(WRONG_OFFSET\)\?,?\s*\) ==> shim_le_u64(buffer, \1, \2)?
 //@sig
